@@ -879,7 +879,15 @@ fn process_incoming_text_message<T: Read + Write>(
                                             match search {
                                                 Some(("index", what)) => {
                                                     match binary_search_by_msg_index(
-                                                        what.parse::<DltMessageIndexType>()
+                                                        // an index too large for the index type shall not be treated as index 0
+                                                        what.parse::<u64>()
+                                                            .map(|i| {
+                                                                std::cmp::min(
+                                                                    i,
+                                                                    DltMessageIndexType::MAX as u64,
+                                                                )
+                                                                    as DltMessageIndexType
+                                                            })
                                                             .unwrap_or_default(),
                                                         fc,
                                                         stream,
